@@ -247,3 +247,12 @@ Proof.
 Qed.
 Example normal_call_example : normal_call [1; -(2)] [1 # 2; 3] [4; 1] = [3; 1].
 Proof. vm_compute. reflexivity. Qed.
+
+(* second mutation sample: reset() without initial_noise restores zeros *)
+Lemma zeros_like_spec v : zeros_like v = map (fun _ => 0) v /\ length (zeros_like v) = length v.
+Proof. unfold zeros_like. split; [reflexivity | apply map_length]. Qed.
+Example zeros_like_example :
+  zeros_like [3; 4] = [0; 0] /\
+  (let c := {| c_theta := 1; c_dt := 1; c_sqdt := 1; c_mu := [5]; c_sigma := [0] |} in
+   let ho := ou_new [] c None in hget (fst ho) (o_prev (snd ho)) = [0]).
+Proof. split; reflexivity. Qed.
